@@ -729,6 +729,154 @@ pub fn pump_events(ctx: &mut Ctx, check_mods: bool, check_ret: bool) -> u64 {
     total
 }
 
+// ---- decoder-level two-press family over real layouts -------------------------------------------------
+// The layout properties (C03, C09, C10, C11, C15, C16) are stated about what users get; their table sweeps call the
+// layout function directly. This family observes the same facts through a real EventDecoder after short histories:
+// from each of the 1024 canonical (modifiers, mode) states, press key K, apply every sequence of <= `max_inter`
+// intermediate actions (18 modifier key events, 2 mode switches, 9 ordinary keys), press K again, and hand the
+// second press's result to the property's own point judge together with the reference modifier state (R-MODS).
+
+pub fn family_intermediates() -> Vec<EvAct> {
+    let mut inter: Vec<EvAct> = vec![];
+    for k in ALL_KEYS {
+        if is_modifier_key(k) {
+            inter.push(EvAct::Key(k, KeyState::Down));
+            inter.push(EvAct::Key(k, KeyState::Up));
+        }
+    }
+    inter.push(EvAct::Ctrl(HandleControl::MapLettersToUnicode));
+    inter.push(EvAct::Ctrl(HandleControl::Ignore));
+    for k in [KeyCode::A, KeyCode::S, KeyCode::Q, KeyCode::W, KeyCode::Key1, KeyCode::Key4, KeyCode::Numpad8, KeyCode::F1, KeyCode::Oem7] {
+        inter.push(EvAct::Key(k, KeyState::Down));
+    }
+    inter
+}
+
+pub struct FamilyBad {
+    pub key: String,
+    pub text: String,
+    pub expected: String,
+    pub observed: String,
+    pub comp: String,
+    pub ops: Vec<Op>,
+}
+
+/// judge(layout, key, reference modifiers at the second press, mode at the second press, result) -> Some((class, expected))
+pub fn decoder_family<J>(ctx: &mut Ctx, label: &str, layouts: &[usize], keys_of: &(dyn Fn(usize) -> Vec<KeyCode> + Sync), max_inter: usize, judge: J) -> u64
+where
+    J: Fn(usize, KeyCode, u16, HandleControl, &Result<DecodedKey, String>) -> Option<(String, String)> + Sync,
+{
+    let paths = mods_paths();
+    let inter = family_intermediates();
+    let n_states = 1024usize;
+    let jobs: Vec<(usize, usize)> = layouts.iter().flat_map(|l| (0..n_states).map(move |s| (*l, s))).collect();
+    let results = par_chunks(jobs.len(), |ji| {
+        let (l, si) = jobs[ji];
+        let m0 = (si % 512) as u16;
+        let mode0 = MODES[si / 512];
+        let mut n = 0u64;
+        let mut bads: Vec<FamilyBad> = vec![];
+        let mut d0 = EventDecoder::new(Wrap(l as u8), mode0);
+        if guarded(|| {
+            for (k, s) in &paths[m0 as usize] {
+                let _ = d0.process_keyevent(KeyEvent::new(*k, *s));
+            }
+        })
+        .is_err()
+        {
+            return (0, bads);
+        }
+        let step = |d: &mut EventDecoder<Wrap>, r: &mut (u16, HandleControl), a: &EvAct| -> bool {
+            let ok = guarded(|| match a {
+                EvAct::Key(k, s) => {
+                    let _ = d.process_keyevent(KeyEvent::new(*k, *s));
+                }
+                EvAct::Ctrl(m) => d.set_ctrl_handling(*m),
+                EvAct::Layout(_) => {}
+            })
+            .is_ok();
+            match a {
+                EvAct::Key(k, s) => r.0 = rmods_step(r.0, *k, *s),
+                EvAct::Ctrl(m) => r.1 = *m,
+                EvAct::Layout(_) => {}
+            }
+            ok
+        };
+        for k in keys_of(l) {
+            if is_modifier_key(k) {
+                continue;
+            }
+            let mut d1 = d0.clone();
+            if guarded(|| d1.process_keyevent(KeyEvent::new(k, KeyState::Down))).is_err() {
+                continue;
+            }
+            let mut check = |seq: &[&EvAct], n: &mut u64, bads: &mut Vec<FamilyBad>| {
+                let mut d = d1.clone();
+                let mut r = (m0, mode0);
+                for a in seq {
+                    if !step(&mut d, &mut r, a) {
+                        return;
+                    }
+                }
+                let got = guarded(|| d.process_keyevent(KeyEvent::new(k, KeyState::Down)));
+                *n += 1;
+                let out: Result<DecodedKey, String> = match got {
+                    Ok(Some(x)) => Ok(x),
+                    Ok(None) => Err("None".into()),
+                    Err(p) => Err(p),
+                };
+                if let Some((class, expected)) = judge(l, k, r.0, r.1, &out) {
+                    if bads.len() < 3 {
+                        let mut ops: Vec<Op> = paths[m0 as usize].iter().map(|(k, s)| Op::Key(*k, *s)).collect();
+                        ops.push(Op::Key(k, KeyState::Down));
+                        ops.extend(seq.iter().map(|a| a.op()));
+                        ops.push(Op::Key(k, KeyState::Down));
+                        let obs = match &out {
+                            Ok(d) => format!("Some({})", dk_text(d)),
+                            Err(p) => p.clone(),
+                        };
+                        let mid: Vec<String> = seq.iter().map(|a| a.op().text()).collect();
+                        bads.push(FamilyBad {
+                            key: format!("{}/{}/{}", LAYOUT_NAMES[l], key_name(k), class),
+                            text: format!(
+                                "[via EventDecoder] layout {}: from modifiers [{}] (mode {}), pressing {:?}, then [{}], then {:?} again: with modifiers [{}] in mode {} the second press must give {} but gives {}",
+                                LAYOUT_NAMES[l], mods_text(m0), mode_name(mode0), k, mid.join(", "), k, mods_text(r.0), mode_name(r.1), expected, obs
+                            ),
+                            expected,
+                            observed: obs,
+                            comp: format!("ed:wrap-{}:{}", LAYOUT_NAMES[l], mode_name(mode0)),
+                            ops,
+                        });
+                    }
+                }
+            };
+            check(&[], &mut n, &mut bads);
+            for a in &inter {
+                check(&[a], &mut n, &mut bads);
+                if max_inter >= 2 {
+                    for b in &inter {
+                        check(&[a, b], &mut n, &mut bads);
+                    }
+                }
+            }
+        }
+        (n, bads)
+    });
+    let mut total = 0;
+    let mut nb = 0;
+    for (n, bads) in results {
+        total += n;
+        for b in bads {
+            nb += 1;
+            ctx.violation(&b.key, &b.text, Replay::one(&b.comp, b.ops, &b.expected, Some(b.observed)));
+        }
+    }
+    ctx.evaluations += total;
+    ctx.traces_validated += total;
+    ctx.part(label, json!({"engine": "B two-press family through real EventDecoder", "layouts": layouts.len(), "start_states": n_states, "intermediate_actions": inter.len(), "max_intermediate_sequence": max_inter, "second_presses_judged": total, "violations_recorded": nb}));
+    total
+}
+
 /// C14's "all orderings of mode/layout changes between two presses": from every canonical decoder state, press an
 /// ordinary key, apply every sequence of <= 2 intermediate actions (modifier key events, mode switches, layout
 /// switches), press the same key again; the second press must return what the statement prescribes.
@@ -745,6 +893,9 @@ fn c14_two_press(ctx: &mut Ctx, tags: u8) {
     inter.push(EvAct::Ctrl(HandleControl::Ignore));
     inter.push(EvAct::Layout(0));
     inter.push(EvAct::Layout(1));
+    for k in [KeyCode::A, KeyCode::S, KeyCode::Q, KeyCode::W, KeyCode::Key1, KeyCode::Numpad8, KeyCode::F1] {
+        inter.push(EvAct::Key(k, KeyState::Down));
+    }
     let plain: Vec<KeyCode> = ALL_KEYS.iter().copied().filter(|k| !is_modifier_key(*k)).collect();
     let n_states = 512 * 2 * tags as usize;
     let results = par_chunks(n_states, |si| {
@@ -854,6 +1005,18 @@ pub fn c14(ctx: &mut Ctx) -> (u64, String) {
     edges += run_evsys::<Keyboard<Echo, ScancodeSet1>>(ctx, "bfs:Keyboard<Echo,Set1>", false, true, false, HandleControl::MapLettersToUnicode);
     c14_anylayout(ctx, false);
     c14_two_press(ctx, if ctx.thorough() { 2 } else { 1 });
+    {
+        let all: Vec<usize> = (0..N_LAYOUTS).collect();
+        let deep = ctx.thorough();
+        decoder_family(ctx, "family:delegation to the real layouts", &all, &|_l| ALL_KEYS.to_vec(), if deep { 2 } else { 1 }, |l, k, m, mode, out| {
+            let want = guarded(|| map_direct(l, k, &mods_from_bits(m), mode));
+            if *out != want {
+                Some(("decoder-vs-layout".to_string(), match &want { Ok(d) => format!("what the layout returns: Some({})", dk_text(d)), Err(p) => p.clone() }))
+            } else {
+                None
+            }
+        });
+    }
     edges += pump_events(ctx, false, true);
     if ctx.thorough() {
         c14_anylayout(ctx, true);
